@@ -37,3 +37,10 @@ pub assume_specification<T, const N: usize> [<[T; N] as AsMut<[T]>>::as_mut] (a:
 pub assume_specification<Idx: Clone> [<core::ops::Range<Idx> as Clone>::clone] (a: &core::ops::Range<Idx>) -> (r: core::ops::Range<Idx>)
     ensures call_ensures(Idx::clone, (&a.start,), r.start), call_ensures(Idx::clone, (&a.end,), r.end);
 //@trusted std: Range<Idx>::clone() clones both bounds (std documentation)
+
+pub mod shims_nondet {
+    use vstd::prelude::*;
+    // R3: which select! arm completes first is not modelled - every choice is verified
+    #[verifier::external_body]
+    pub fn nondet() -> bool { unimplemented!() }
+}
